@@ -4797,3 +4797,48 @@ func ruleRuneCase(prog *Program, rep *Report, floor int, rels ...string) {
 	rep.Rules = append(rep.Rules, "G-runecase: the functions of package unicode are applied to runes, never to a single byte of a string converted with rune(b[i]) ("+strings.Join(rels, ", ")+")")
 	runSynRule(prog, rep, "G-runecase", rels, matchRuneCase, fixtureRuneCase, 1, floor)
 }
+
+// ---------------------------------------------------------------- N-infsign
+
+// matchInfSign: a number whose value does not fit a float64 is kept as text, whichever way it overflowed. The
+// test for that is math.IsInf(f, 0); a sign of +1 or -1 lets the other infinity through as a value.
+func matchInfSign(files []*ast.File, info *types.Info) (sites []synSite, examined int) {
+	for _, f := range files {
+		ast.Inspect(f, func(n ast.Node) bool {
+			call, ok := n.(*ast.CallExpr)
+			if !ok || len(call.Args) != 2 {
+				return true
+			}
+			sel, ok := call.Fun.(*ast.SelectorExpr)
+			if !ok {
+				return true
+			}
+			fn, ok := info.Uses[sel.Sel].(*types.Func)
+			if !ok || fn.Pkg() == nil || fn.Pkg().Path() != "math" || fn.Name() != "IsInf" {
+				return true
+			}
+			examined++
+			if tv, ok := info.Types[call.Args[1]]; ok && tv.Value != nil && tv.Value.ExactString() == "0" {
+				return true
+			}
+			name := enclosingFuncName(f, call.Pos())
+			sites = append(sites, synSite{pos: call.Pos(), file: f, key: fmt.Sprintf("%s:isinf-one-sided", name),
+				msg: fmt.Sprintf("%s tests %s: an overflow towards the other infinity is taken for a value", name, types.ExprString(call))})
+			return true
+		})
+	}
+	return
+}
+
+const fixtureInfSign = `package fixture
+
+import "math"
+
+func keepAsText(f float64) bool { return math.IsInf(f, 1) }
+func both(f float64) bool       { return math.IsInf(f, 0) }
+`
+
+func ruleInfSign(prog *Program, rep *Report, floor int, rels ...string) {
+	rep.Rules = append(rep.Rules, "N-infsign: math.IsInf is called with sign 0 (both infinities) ("+strings.Join(rels, ", ")+")")
+	runSynRule(prog, rep, "N-infsign", rels, matchInfSign, fixtureInfSign, 1, floor)
+}
